@@ -95,7 +95,7 @@ def _registry(draw) -> dict:
 
 def strategy(tier: str):
     send = st.builds(lambda n, c, t, v: ["send", [n, c, 1, 0, t, v], None], st.sampled_from(NODES), st.sampled_from(CHILDREN), st.sampled_from((0, 2, 49)), gen.short_payloads)
-    events = st.sampled_from((["save"], ["save"], ["reload"], ["session"]))  # the registry is saved / reloaded / the context re-entered meanwhile
+    events = st.sampled_from((["save"], ["save"], ["reload"], ["session"], ["read_error", "read"], ["read_error", "failed"], ["tick", 3600]))  # the registry is saved / reloaded / the context re-entered meanwhile
     ops = st.lists(gen.weighted((16, gen.with_ack(_line_strategy()).map(lambda line: ["rx", line])), (2, send), (1, events)), min_size=5, max_size=25)
     return st.fixed_dictionaries(
         {
@@ -136,6 +136,15 @@ def enumerate_cases(tier: str):
         for length in range(1, depth + 1):
             for combo in itertools.product(ENUM_ALPHABET, repeat=length):
                 yield {"version": version, "registry": {}, "ops": [["rx", line] for line in combo], "mode": "steps"}
+    # the whole id space: every node id presents itself, reports and presents a child (ids 0 and 255 are ids like any other)
+    for version in ("1.4", "2.2") if tier == "quick" else VERSIONS:
+        for start in range(0, 256, 16):
+            lines = []
+            for node in range(start, start + 16):
+                child = (node * 7) % 255
+                lines += [f"{node};255;0;0;17;2.1.0\n", f"{node};255;3;0;11;sketch {node}\n", f"{node};255;3;0;0;{node % 101}\n", f"{node};{child};0;0;6;c\n",
+                          f"{node};{child};1;0;0;{node}.5\n", f"{node};{child};2;0;0;\n", f"{node};254;0;0;3;last\n", f"{node};0;0;0;3;first\n"]
+            yield {"version": version, "registry": {}, "ops": [["rx", line] for line in lines], "mode": "steps", "listen_mode": "persistent" if start % 32 else "fresh"}
     # the gateway's version changes mid-history (firmware update, or the first report after a start): traffic of every
     # kind under the first version, the report, then traffic of every kind again (incl. types only the new version knows)
     traffic = ["4;255;0;0;17;2.0\n", "4;1;0;0;6;t\n", "4;1;1;0;0;20\n", "4;1;2;0;0;\n", "4;255;3;0;0;55\n", "4;255;3;0;11;s\n", "4;255;3;0;12;1\n", "4;255;3;0;22;7\n", "4;255;3;0;32;500\n",
